@@ -893,7 +893,38 @@ func init() {
 		f.defBool("client_open_stream_closes_refused", refusedClosed, "the branch taken when channel selection fails closes the stream: "+pos(os))
 
 		cd := findFunc("internal/client/listener", "AbstractListener", "ConnectDirectly")
+		cps := paramNames(cd.Type)
+		if len(cps) != 1 {
+			die("ConnectDirectly at %s: expected one parameter", pos(cd))
+		}
+		// the connection to the forward address: what net.Dial returned, and whatever is computed from it
+		directVars := map[string]bool{}
+		ast.Inspect(cd.Body, func(n ast.Node) bool {
+			a, ok := n.(*ast.AssignStmt)
+			if !ok || len(a.Rhs) != 1 || len(a.Lhs) < 1 {
+				return true
+			}
+			if c, ok := a.Rhs[0].(*ast.CallExpr); ok {
+				if calleeName(c) == "Dial" || calleeName(c) == "DialTimeout" || mentions(c, directVars) {
+					directVars[exprText(a.Lhs[0])] = true
+				}
+			}
+			return true
+		})
+		if len(directVars) == 0 {
+			die("ConnectDirectly at %s: no connection dialled", pos(cd))
+		}
+		cdRole := func(a string) string {
+			switch {
+			case a == cps[0]:
+				return "conn"
+			case directVars[a]:
+				return "direct"
+			}
+			return a
+		}
 		cdText := "(no PipeData)"
+		var cdCloses []string
 		ast.Inspect(cd.Body, func(n ast.Node) bool {
 			b, ok := n.(*ast.BlockStmt)
 			if !ok {
@@ -903,12 +934,25 @@ func init() {
 				if _, isBlock := st.(*ast.IfStmt); isBlock {
 					continue
 				}
-				if findCall(st, "PipeData") != nil {
+				if c := findCall(st, "PipeData"); c != nil {
+					if len(c.Args) != 2 || cdRole(exprText(c.Args[0])) != "conn" || cdRole(exprText(c.Args[1])) != "direct" {
+						die("ConnectDirectly at %s: PipeData is not called with (the local connection, the dialled connection)", pos(cd))
+					}
 					var acts []string
+					// closes deferred in this block (or in the function) before the pipe run when the function returns
+					for _, st0 := range append(append([]ast.Stmt{}, cd.Body.List...), b.List[:i]...) {
+						if d, ok := st0.(*ast.DeferStmt); ok && d.Pos() < st.Pos() {
+							for _, a := range closesIn(d.Call) {
+								acts = append(acts, "defer close:"+cdRole(a))
+								cdCloses = append(cdCloses, cdRole(a))
+							}
+						}
+					}
 					for _, st2 := range b.List[i+1:] {
 						if es, ok := st2.(*ast.ExprStmt); ok {
 							if a, ok := closeArg(es.X); ok {
-								acts = append(acts, "close:"+a)
+								acts = append(acts, "close:"+cdRole(a))
+								cdCloses = append(cdCloses, cdRole(a))
 							}
 						}
 						if _, ok := st2.(*ast.ReturnStmt); ok {
@@ -920,6 +964,27 @@ func init() {
 			}
 			return true
 		})
+		// ... or by the caller: HandleConnection closing its parameter in a deferred call, or in the branch taken when ConnectDirectly took the connection
+		for _, st := range lh.Body.List {
+			switch v := st.(type) {
+			case *ast.DeferStmt:
+				for _, a := range closesIn(v.Call) {
+					if a == lps[0] {
+						cdCloses = append(cdCloses, "conn")
+					}
+				}
+			case *ast.IfStmt:
+				if findCall(v.Cond, "ConnectDirectly") != nil {
+					for _, a := range closesIn(v.Body) {
+						if a == lps[0] {
+							cdCloses = append(cdCloses, "conn")
+						}
+					}
+				}
+			}
+		}
+		f.defBool("connect_directly_closes_conn", hasRole(cdCloses, "conn"), "the local connection is closed when the direct pipe is over (in ConnectDirectly or by HandleConnection): "+pos(cd))
+		f.defBool("connect_directly_closes_direct", hasRole(cdCloses, "direct"), "the connection to the forward address is closed when the direct pipe is over: "+pos(cd))
 		str("connect_directly_after_pipe", cdText, pos(cd))
 		return f
 	})
